@@ -804,6 +804,8 @@ def subscript(fr, base, sl, node):
             raise PathRaise("IndexError", str(e))
     if isinstance(base, dict):
         if is_abs(i):
+            i = concretise(fr, i)
+        if is_abs(i):
             try:
                 if i in base:
                     return base[i]
@@ -1310,6 +1312,8 @@ def method(fr, base, name, args, kw, n):
                 raise PathRaise(type(e).__name__, str(e))
         if isinstance(base, dict) and name in ("items", "keys", "values", "get", "update", "pop", "setdefault", "copy"):
             if name == "get" and args and is_abs(args[0]):
+                args = [concretise(fr, args[0])] + list(args[1:])
+            if name == "get" and args and is_abs(args[0]):
                 try:
                     return subscript_dict_abs(fr, base, args[0], n)
                 except PathRaise:
@@ -1344,8 +1348,26 @@ def method(fr, base, name, args, kw, n):
     return I.opaque(f"method {name} on {type(base).__name__}")
 
 
+def concretise(fr, key):
+    """a key whose abstract parts are constant on this path, as plain python values"""
+    if isinstance(key, AInt):
+        c = fr.I_const(key)
+        if c is not None:
+            return bool(c) if key.isbool else c
+        return key
+    if isinstance(key, tuple):
+        return tuple(concretise(fr, k) for k in key)
+    return key
+
+
 def subscript_dict_abs(fr, d, key, n):
     I = fr.I
+    ck = concretise(fr, key)
+    if not is_abs(ck):
+        try:
+            return d[ck]
+        except KeyError:
+            raise PathRaise("KeyError", repr(ck))
     if isinstance(key, AEnum):
         for k in d:
             if isinstance(k, EnumMember) and I.decide(eq(fr, key, k, n), f"dictget:{n.lineno}"):
@@ -1548,6 +1570,14 @@ def external(fr, name, args, kw, n):
     if name == "numpy.array_equal":
         return eq(fr, ABits(fr.to_bitlist(args[0]), "seq") if not isinstance(args[0], AOpq) else args[0],
                   ABits(fr.to_bitlist(args[1]), "seq") if not isinstance(args[1], AOpq) else args[1], n)
+    if name.startswith("math.") and not any(is_abs(a) for a in args):
+        import math
+        f = getattr(math, short, None)
+        if f is not None:
+            try:
+                return f(*args)
+            except Exception as e:
+                raise PathRaise(type(e).__name__, str(e))
     if name == "array.array":
         init = args[1] if len(args) > 1 else []
         return list(fr.iterate(init, n))
